@@ -231,19 +231,42 @@ pub struct RecipeCase {
     pub aisle: Vec<u8>,
 }
 
-fn scaled(raw: &RawRecipe, factor: Option<f64>, st: &mut Stats) -> Option<(String, ScaledRecipe)> {
+fn scaled(raw: &RawRecipe, factor: Option<f64>, st: &mut Stats) -> Result<Option<(String, ScaledRecipe)>, Violation> {
     let m = build(raw, false);
     let (src, _) = print_recipe(&m, &raw.tape);
     let res = EXTENDED.parse(&src);
     if !res.is_valid() {
         st.exclude("not a valid recipe (C01's business)");
-        return None;
+        return Ok(None);
     }
     let r = res.into_output().unwrap();
-    Some((src, match factor {
+    // "each quantity is counted under its definition": which definition that is comes from the source (the
+    // model), not from what the parser made of it
+    let expected = crate::image::expected_image(&m, &crate::image::ExpectOpts { inline: true });
+    if expected.ingredients.len() == r.ingredients.len() {
+        for (i, (e, a)) in expected.ingredients.iter().zip(&r.ingredients).enumerate() {
+            let want = match &e.rel {
+                crate::image::IRel::Ref { to, target } if *target == "ingredient" => Some(*to),
+                _ => None,
+            };
+            let got = match a.relation.references_to() {
+                Some((to, IngredientReferenceTarget::Ingredient)) => Some(to),
+                _ => None,
+            };
+            vensure!(
+                want == got,
+                "c10.counted-under-wrong-definition",
+                "ingredient {i} ({:?}) is written as {} but the parsed recipe has it as {}: its amount is grouped and listed elsewhere; source {src:?}",
+                a.name,
+                want.map_or("a definition of its own".to_string(), |t| format!("a reference to ingredient {t}")),
+                got.map_or("a definition of its own".to_string(), |t| format!("a reference to ingredient {t}"))
+            );
+        }
+    }
+    Ok(Some((src, match factor {
         Some(f) => r.scale(f, &*CONV),
         None => r.default_scale(),
-    }))
+    })))
 }
 
 fn has_temperature(r: &ScaledRecipe) -> bool {
@@ -349,7 +372,7 @@ fn check_case(c: &RecipeCase, st: &mut Stats) -> Verdict {
     let factor = c.factor_bits.map(f64::from_bits);
     let mut recipes = vec![];
     for raw in &c.raws {
-        if let Some(x) = scaled(raw, factor, st) {
+        if let Some(x) = scaled(raw, factor, st)? {
             if has_temperature(&x.1) {
                 st.exclude("temperature unit on an ingredient (offset units have no additive amount)");
                 continue;
@@ -574,7 +597,24 @@ pub fn run(tier: Tier) -> i32 {
             "1-3 generated Ext recipes (references, duplicate=ref mode, hidden/optional modifiers, aliases, all value kinds), default-scaled or scaled: group_ingredients / group_cookware entries = definitions in order with own + referring quantities (references found by scanning), every quantity counted once; IngredientList over all recipes = listed definitions by display name with summed totals; categorize with a generated aisle file (synonym lines joining listed names, unlisted names) conserves the amounts per category and overall; non-trivial = the list has entries",
             || {
                 (proptest::collection::vec(raw_recipe(Some(true)), 1..=3), proptest::option::weighted(0.5, 0.1f64..20.0), proptest::collection::vec(any::<u8>(), 0..8))
-                    .prop_map(|(raws, f, aisle)| RecipeCase { raws, factor_bits: f.map(f64::to_bits), aisle })
+                    .prop_map(|(mut raws, f, aisle)| {
+                        // a quarter of the cases: the first recipe runs in `[duplicate]: ref` or `[mode]: steps`
+                        // mode and writes its references with an explicit (there redundant) `&`
+                        if aisle.first().is_some_and(|a| a % 4 == 0) {
+                            let r = &mut raws[0];
+                            r.blocks.insert(0, RawBlock::Mode(if aisle[0] % 8 == 0 { 5 } else { 2 }));
+                            for b in r.blocks.iter_mut() {
+                                if let RawBlock::Step(toks) = b {
+                                    for (_, t) in toks.iter_mut() {
+                                        if let RawTok::Comp(c) = t {
+                                            c.mods |= 24;
+                                        }
+                                    }
+                                }
+                            }
+                        }
+                        RecipeCase { raws, factor_bits: f.map(f64::to_bits), aisle }
+                    })
             },
             tier.pick(12_000, 1_200_000),
             |c: &RecipeCase, st| check_case(c, st),
